@@ -28,6 +28,10 @@ IsNoSlot(x) == x.r = "err:Pdu" /\ x.detail = "Pdu(SwapState)"
 TaskErrors(r, t) ==
     LET a == r.tasks[t]  s == r.solo[t] IN
     (IF ~a.done THEN {<<"TaskNotFinished", t>>} ELSE {})
+    \* a process data cycle delivers the inputs of its own group's devices (the simulator's ground truth), whoever
+    \* else is using the MainDevice - and also when nobody else is
+    \cup {<<"InputsNotOwnGroup", t, k>> :
+            k \in {k \in 1..Len(a.results) : a.is_cycle /\ a.results[k].r = "ok" /\ a.results[k].bytes # a.expect_inputs}}
     \cup (IF Len(a.results) # Len(s.results) THEN {<<"OperationCount", t, Len(a.results), Len(s.results)>>} ELSE
           {<<"ResultDiffersFromSolo", t, k, a.results[k].r, s.results[k].r>> :
               k \in {k \in 1..Len(a.results) :
